@@ -583,6 +583,8 @@ func C19(p *core.Prog, rep *core.Report) {
 	tb4Tags(p, rep)
 	list1Deque(p, rep)
 	list2SizeWithCursor(p, rep)
+	dt4SizePersisted(p, rep)
+	dt2EncodersUseFields(p, rep)
 	flt1ScoreCodec(p, rep)
 	dt1ExistenceByError(p, rep)
 	// S4: every structure update is a batch: the batch durability clauses (C04) apply
